@@ -22,24 +22,26 @@ import (
 )
 
 type SyncSpec struct {
-	N           int    `json:"n"`                  // validators
-	Prefix      int    `json:"prefix"`             // common blocks after genesis
-	Own         int    `json:"own"`                // length of A's fork
-	Peer        int    `json:"peer"`               // length of B's fork
-	Full        bool   `json:"full"`               // all validators forge (finality advances); otherwise two of them (no finality)
-	HCB         string `json:"hcb"`                // honest | none | foreign | low
-	Corrupt     int    `json:"corrupt"`            // index in the served stream of the corrupted block, -1 = none
-	CorruptKind string `json:"corruptkind"`        // sig (processing rejects) | static (Validate rejects)
-	ErrAfter    int    `json:"errafter"`           // answer an error once this many blocks have been served, -1 = never
-	ForkMode    string `json:"forkmode,omitempty"` // "" = both forks like the prefix (Full); "peerfull" = own fork by two validators, peer's fork by all (better although shorter)
-	Recent      bool   `json:"recent,omitempty"`   // genesis time such that the last block's slot is the current one (the finalized block is recent)
+	N            int    `json:"n"`                      // validators
+	Prefix       int    `json:"prefix"`                 // common blocks after genesis
+	Own          int    `json:"own"`                    // length of A's fork
+	Peer         int    `json:"peer"`                   // length of B's fork
+	Full         bool   `json:"full"`                   // all validators forge (finality advances); otherwise two of them (no finality)
+	HCB          string `json:"hcb"`                    // honest | none | foreign | low
+	Corrupt      int    `json:"corrupt"`                // index in the served stream of the corrupted block, -1 = none
+	CorruptKind  string `json:"corruptkind"`            // sig (processing rejects) | static (Validate rejects)
+	ErrAfter     int    `json:"errafter"`               // answer an error once this many blocks have been served, -1 = never
+	ForkMode     string `json:"forkmode,omitempty"`     // "" = both forks like the prefix (Full); "peerfull" = own fork by two validators, peer's fork by all (better although shorter)
+	NonValidator bool   `json:"nonvalidator,omitempty"` // the generator of the triggering block is not among the current validators handed to Sync
+	Recent       bool   `json:"recent,omitempty"`       // genesis time such that the last block's slot is the current one (the finalized block is recent)
 	// third node: the SENDER of the block that triggers the sync is not the best peer. It shares the prefix and the first
 	// SenderShare blocks of our own fork, then has SenderOwn blocks of its own
 	Sender      bool `json:"sender,omitempty"`
 	SenderShare int  `json:"sendershare,omitempty"`
 	SenderOwn   int  `json:"senderown,omitempty"`
 	genesisTime uint32
-	Stall       string `json:"stall,omitempty"` // instead of the error: "empty" = answer zero blocks forever, "repeat" = answer the first segment forever
+	wd          time.Duration // watchdog per sync (0 = 12 s)
+	Stall       string        `json:"stall,omitempty"` // instead of the error: "empty" = answer zero blocks forever, "repeat" = answer the first segment forever
 	// optional second sync on the same node afterwards (a later block from the same peer): A first extends its chain by Own2
 	// blocks; the peer then follows this script
 	Second       bool   `json:"second,omitempty"`
@@ -67,29 +69,32 @@ type SyncObs struct {
 	After  []uint64 `json:"after"`
 	Phase  int      `json:"phase"` // 1 = first sync of the scenario, 2 = second
 	// ground truth of the scenario (independent of what the peers answered)
-	PeerChain  []uint64    `json:"peerchain"`  // chain of the best peer (B)
-	Honest     bool        `json:"honest"`     // the peers follow the protocol in this sync
-	Better     bool        `json:"better"`     // B's tip has priority over ours: larger maxHeightPrevoted, or equal and higher
-	ForkH      uint32      `json:"forkh"`      // height of the last block we share with B
-	OwnH       uint32      `json:"ownh"`       // our tip height before
-	BlockH     uint32      `json:"blockh"`     // height of the block that triggers the sync (the sender's tip)
-	SlotGap    int         `json:"slotgap"`    // current slot - slot of our finalized block
-	TempBefore [][2]uint64 `json:"tempbefore"` // (height, code) of A's temp blocks before this sync
-	Finalized  uint32      `json:"finalized"`  // A's finalized height before
-	TargetH    uint32      `json:"targeth"`
-	Common     *uint64     `json:"common"`    // code of the ID B answered to getHighestCommonBlock (last answer), nil = none
-	Delivered  []uint64    `json:"delivered"` // blocks that reached the syncer and passed Validate, in order
-	Ending     string      `json:"ending"`    // ok | err | invalid
-	Links      [][2]uint64 `json:"links"`     // (parent code, block code) of every honest block: the validity oracle
-	Err        string      `json:"err"`       // "" = Sync returned nil
-	Banned     bool        `json:"banned"`
-	TempAfter  [][2]uint64 `json:"tempafter"`        // (height, code) of A's temp blocks afterwards
-	DBEqual    bool        `json:"dbequal"`          // A's whole database equals the one before
-	DBDiff     []string    `json:"dbdiff,omitempty"` // differing keys (hex, at most 8) when the chain is unchanged but the database is not
-	Hang       bool        `json:"hang,omitempty"`
-	Panic      string      `json:"panic,omitempty"`
-	Fail       string      `json:"fail,omitempty"` // harness failure
-	LowDeleted bool        `json:"lowdeleted"`     // a block at or below the finalized height changed
+	PeerChain      []uint64    `json:"peerchain"`      // chain of the best peer (B)
+	Honest         bool        `json:"honest"`         // the peers follow the protocol in this sync
+	Better         bool        `json:"better"`         // B's tip has priority over ours: larger maxHeightPrevoted, or equal and higher
+	ForkH          uint32      `json:"forkh"`          // height of the last block we share with B
+	OwnH           uint32      `json:"ownh"`           // our tip height before
+	BlockH         uint32      `json:"blockh"`         // height of the block that triggers the sync (the sender's tip)
+	SlotGap        int         `json:"slotgap"`        // current slot - slot of our finalized block
+	NVals          int         `json:"nvals"`          // len(CurrentValidators) handed to Sync
+	GenIsValidator bool        `json:"genisvalidator"` // the triggering block's generator is among them
+	TempBefore     [][2]uint64 `json:"tempbefore"`     // (height, code) of A's temp blocks before this sync
+	Finalized      uint32      `json:"finalized"`      // A's finalized height before
+	TargetH        uint32      `json:"targeth"`
+	Common         *uint64     `json:"common"`    // code of the ID B answered to getHighestCommonBlock (last answer), nil = none
+	Delivered      []uint64    `json:"delivered"` // blocks that reached the syncer and passed Validate, in order
+	Ending         string      `json:"ending"`    // ok | err | invalid
+	Links          [][2]uint64 `json:"links"`     // (parent code, block code) of every honest block: the validity oracle
+	Err            string      `json:"err"`       // "" = Sync returned nil
+	Banned         bool        `json:"banned"`
+	TempAfter      [][2]uint64 `json:"tempafter"`        // (height, code) of A's temp blocks afterwards
+	DBEqual        bool        `json:"dbequal"`          // A's whole database equals the one before
+	DBDiff         []string    `json:"dbdiff,omitempty"` // differing keys (hex, at most 8) when the chain is unchanged but the database is not
+	Hang           bool        `json:"hang,omitempty"`
+	Retried        bool        `json:"retried,omitempty"` // the first run hit the watchdog; this is the second run with a 45 s limit
+	Panic          string      `json:"panic,omitempty"`
+	Fail           string      `json:"fail,omitempty"` // harness failure
+	LowDeleted     bool        `json:"lowdeleted"`     // a block at or below the finalized height changed
 }
 
 type capWriter struct {
@@ -169,7 +174,23 @@ func RunSync(spec SyncSpec, pre, after func(a *exh.Node)) SyncObs {
 }
 
 // RunSyncAll returns one observation per sync of the scenario (two when spec.Second).
-func RunSyncAll(spec SyncSpec, pre, after func(a *exh.Node)) (out []SyncObs) {
+func RunSyncAll(spec SyncSpec, pre, after func(a *exh.Node)) []SyncObs {
+	res := runSyncAll(spec, pre, after)
+	for _, o := range res {
+		if o.Hang && spec.wd == 0 {
+			// a watchdog expiry may be machine load: the scenario is run once more with a much longer limit before a hang is reported
+			spec.wd = 45 * time.Second
+			res2 := runSyncAll(spec, pre, after)
+			for i := range res2 {
+				res2[i].Retried = true
+			}
+			return res2
+		}
+	}
+	return res
+}
+
+func runSyncAll(spec SyncSpec, pre, after func(a *exh.Node)) (out []SyncObs) {
 	var obs SyncObs
 	defer func() {
 		if len(out) == 0 {
@@ -186,7 +207,7 @@ func RunSyncAll(spec SyncSpec, pre, after func(a *exh.Node)) (out []SyncObs) {
 		}
 		spec2 := spec
 		spec2.genesisTime = uint32(time.Now().Unix()) - uint32(last)*10 - 4 // now is 4 s into the slot of the newest block
-		res := RunSyncAll(spec2, pre, after)
+		res := runSyncAll(spec2, pre, after)
 		for i := range res {
 			res[i].Spec = spec
 		}
@@ -258,6 +279,14 @@ func RunSyncAll(spec SyncSpec, pre, after func(a *exh.Node)) (out []SyncObs) {
 			return
 		case "low":
 			answer(a.Genesis.Header.ID)
+			return
+		case "echo": // the first ID of the request itself: the requester's own tip, above our chain if we are shorter
+			req := &csync.GetHighestCommonBlockRequest{}
+			if err := req.Decode(r.Data); err == nil && len(req.IDs) > 0 {
+				answer(req.IDs[0])
+				return
+			}
+			w.Write(nil)
 			return
 		}
 		cw := &capWriter{}
@@ -482,8 +511,22 @@ func RunSyncAll(spec SyncSpec, pre, after func(a *exh.Node)) (out []SyncObs) {
 			lowBefore = append(lowBefore, a.HeaderAt(h).ID)
 		}
 		dumpBeforeKV := a.Dump()
-		ctx, cancel := context.WithTimeout(context.Background(), 25*time.Second)
-		sctx := &csync.SyncContext{Ctx: ctx, Block: clone(senderNode.Tip()), FinalizedBlockHeader: finHeader, PeerID: sender, CurrentValidators: vals}
+		wd := spec.wd
+		if wd == 0 {
+			wd = 12 * time.Second
+		}
+		ctx, cancel := context.WithTimeout(context.Background(), 2*wd+time.Second)
+		curVals := vals
+		if spec.NonValidator {
+			curVals = []codec.Lisk32{}
+			for _, ad := range vals {
+				if !bytes.Equal(ad, senderNode.Tip().Header.GeneratorAddress) {
+					curVals = append(curVals, ad)
+				}
+			}
+		}
+		obs.NVals, obs.GenIsValidator = len(curVals), !spec.NonValidator
+		sctx := &csync.SyncContext{Ctx: ctx, Block: clone(senderNode.Tip()), FinalizedBlockHeader: finHeader, PeerID: sender, CurrentValidators: curVals}
 		done := make(chan string, 1)
 		go func() {
 			defer func() {
@@ -505,7 +548,7 @@ func RunSyncAll(spec SyncSpec, pre, after func(a *exh.Node)) (out []SyncObs) {
 			} else if strings.HasPrefix(res, "ERR ") {
 				obs.Err = res[4:]
 			}
-		case <-time.After(12 * time.Second):
+		case <-time.After(wd):
 			hang = true
 		}
 		cancel()
